@@ -8,6 +8,8 @@ From Brc.Model Require Import Base History Table BlockTable Store.
 From Brc.Model Require Import Engine EngineStore.
 From Brc.Model Require Import Allowed.
 From Brc.Proofs Require Import HistoryP KvP TableP BlockTableP StoreP EngineP EngineStoreP AllowedP ProgressP.
+From Brc.Model Require Tie01.
+From Brc.Proofs Require Tie01P.
 From BrcGen Require Import Consts.
 
 Theorem C01_window_pinned : W = 10.
@@ -244,3 +246,19 @@ Print Assumptions C01_reorg_covers_all_tables.
 (* assumptions of the theorems above that had no report next to them *)
 Print Assumptions C01_window_pinned.
 Print Assumptions C01_engine_guard_spec.
+
+(* ---------------------------------------------------------------------------------------
+   The tie, as a theorem.  [Tie01.s_check] is the executable checker the correspondence run
+   evaluates on every store trace recorded from the real engine (verdict 0 = every operation
+   replays, every refusal is the model's, every probe agrees, the trace is well-formed).
+   Verdict 0 delivers exactly the hypotheses of [C01_store_trace_invariant] for the recorded
+   operations: the model store the engine's probes were compared with satisfies SInv, so the
+   reorg / commit / clear theorems of C01, C03 and C13 apply at every accepted case. *)
+Theorem C01_accepted_trace_case_satisfies_the_invariant :
+  forall items,
+    Tie01.s_check W st_empty (Some wf_init) items = 0 ->
+    exists s' st', sto_run W st_empty (Tie01P.ops_of items) = Ok s' /\
+                   wf_run W wf_init (Tie01P.ops_of items) = Some st' /\
+                   SInv W s' (fs_run fs_init (Tie01P.ops_of items)) st'.
+Proof. exact (Tie01P.accepted_case_invariant W). Qed.
+Print Assumptions C01_accepted_trace_case_satisfies_the_invariant.
